@@ -28,7 +28,7 @@ Definition reviewed_sites : list (string * string * string * list string) := [
   ("nodes/land.py", "GrowingSurface.adsorption", "self.bulk_density * self.rooting_depth * self.area", ["not (ad_de_P_pool == 0)"]);
   ("nodes/land.py", "GrowingSurface.adsorption", "self.nfr", ["not (ad_de_P_pool == 0)"; "not (conc_sol <= 0)"]);
   ("nodes/land.py", "GrowingSurface.adsorption", "soil_moisture_content + coeff", ["not (ad_de_P_pool == 0)"; "conc_sol <= 0"]);
-  ("nodes/land.py", "GrowingSurface.calc_crop_cover", "(1 - self.ET_depletion_factor) * self.total_available_water", ["not (root_zone_depletion < self.readily_available_water)"]);
+  ("nodes/land.py", "GrowingSurface.calc_crop_cover", "(1 - self.ET_depletion_factor) * self.total_available_water", ["not (root_zone_depletion < self.readily_available_water)"; "not (root_zone_depletion >= self.total_available_water)"]);
   ("nodes/land.py", "GrowingSurface.calc_crop_uptake", "(self.uptake2 + uptake_par) ** 2", ["self.days_after_sow"; "uptake_par + self.uptake2 > 0"]);
   ("nodes/land.py", "GrowingSurface.calc_crop_uptake", "20", ["self.days_after_sow"; "self.autumn_sow"]);
   ("nodes/land.py", "GrowingSurface.calc_crop_uptake", "self.storage['volume']", ["self.days_after_sow"]);
